@@ -32,6 +32,7 @@ type Engine struct {
 	globalIDs       map[*ssa.Global]int
 	prelude         string
 	requireVariants bool
+	onlySafe        bool // thin mode: only clauses labelled safe_* are checked and assumed
 	inlineExternal  map[string]bool
 	effectsMemo     map[*ssa.Function]*effects
 	mu              sync.Mutex
@@ -42,7 +43,7 @@ type Engine struct {
 func newEngine(repo string) *Engine {
 	return &Engine{repo: repo, ssaPkgs: map[string]*ssa.Package{}, typPkgs: map[string]*types.Package{},
 		contracts: newContractSet(), tids: &typeIDs{ids: map[string]int{}}, funcIDs: map[*ssa.Function]int{},
-		globalIDs: map[*ssa.Global]int{}, inlineExternal: map[string]bool{}, effectsMemo: map[*ssa.Function]*effects{}}
+		globalIDs: map[*ssa.Global]int{}, inlineExternal: map[string]bool{"errors.Unwrap": true}, effectsMemo: map[*ssa.Function]*effects{}}
 }
 
 func goEnv() []string {
@@ -117,6 +118,11 @@ func (e *Engine) loadSpecs(dir string) error {
 		}
 	}
 	return nil
+}
+
+// useClause says whether a contract clause takes part in this run.
+func (e *Engine) useClause(c Clause) bool {
+	return !e.onlySafe || strings.HasPrefix(c.Label, "safe")
 }
 
 func (e *Engine) pkgOf(path string) *types.Package { return e.typPkgs[path] }
@@ -400,7 +406,9 @@ func (e *Engine) callEffects(fn *ssa.Function, c *ssa.CallCommon, tracked map[*s
 	}
 	callee := c.StaticCallee()
 	if callee == nil {
-		// closure values held in cells: scan every closure made in this function
+		// closure values held in cells: every closure made in this function
+		// may be the target; only the captured variables a closure actually
+		// writes (or passes on) count as modified
 		for _, b := range fn.Blocks {
 			for _, in := range b.Instrs {
 				if mc, ok := in.(*ssa.MakeClosure); ok {
@@ -412,7 +420,11 @@ func (e *Engine) callEffects(fn *ssa.Function, c *ssa.CallCommon, tracked map[*s
 					if ef.allocates {
 						*allocates = true
 					}
-					for _, bd := range mc.Bindings {
+					written := freeVarsWritten(cf)
+					for i, bd := range mc.Bindings {
+						if i < len(cf.FreeVars) && !written[cf.FreeVars[i]] {
+							continue
+						}
 						if al, ok := rootAlloc(bd); ok && as != nil {
 							as[al] = true
 						}
@@ -490,6 +502,56 @@ func (e *Engine) modifiesHeaps(callee *ssa.Function, spec *FuncSpec, loc string,
 			hs[heapName(sh, c)] = heapSort(sh, c)
 		}
 	}
+}
+
+// freeVarsWritten returns the captured variables that the closure stores to
+// or hands to another call.
+func freeVarsWritten(cf *ssa.Function) map[*ssa.FreeVar]bool {
+	out := map[*ssa.FreeVar]bool{}
+	rootFV := func(v ssa.Value) *ssa.FreeVar {
+		for i := 0; i < 10; i++ {
+			switch x := v.(type) {
+			case *ssa.FreeVar:
+				return x
+			case *ssa.FieldAddr:
+				v = x.X
+			case *ssa.IndexAddr:
+				v = x.X
+			default:
+				return nil
+			}
+		}
+		return nil
+	}
+	for _, b := range cf.Blocks {
+		for _, in := range b.Instrs {
+			switch x := in.(type) {
+			case *ssa.Store:
+				if fv := rootFV(x.Addr); fv != nil {
+					out[fv] = true
+				}
+			case *ssa.Call:
+				for _, a := range x.Call.Args {
+					if fv := rootFV(a); fv != nil {
+						out[fv] = true
+					}
+				}
+			case *ssa.Defer:
+				for _, a := range x.Call.Args {
+					if fv := rootFV(a); fv != nil {
+						out[fv] = true
+					}
+				}
+			case *ssa.MakeClosure:
+				for _, a := range x.Bindings {
+					if fv := rootFV(a); fv != nil {
+						out[fv] = true
+					}
+				}
+			}
+		}
+	}
+	return out
 }
 
 func (e *Engine) effectsOf(fn *ssa.Function, depth int) *effects {
@@ -611,6 +673,37 @@ type FuncResult struct {
 	Seconds     float64
 }
 
+// comparesWithNil reports whether the function compares parameter p with nil.
+func comparesWithNil(fn *ssa.Function, p *ssa.Parameter) bool {
+	for _, b := range fn.Blocks {
+		for _, in := range b.Instrs {
+			bo, ok := in.(*ssa.BinOp)
+			if !ok || (bo.Op != token.EQL && bo.Op != token.NEQ) {
+				continue
+			}
+			isNil := func(v ssa.Value) bool {
+				c, ok := v.(*ssa.Const)
+				return ok && c.Value == nil
+			}
+			fromP := func(v ssa.Value) bool {
+				if v == ssa.Value(p) {
+					return true
+				}
+				if u, ok := v.(*ssa.UnOp); ok && u.Op == token.MUL {
+					if a, ok := u.X.(*ssa.Alloc); ok && a.Comment == p.Name() {
+						return true
+					}
+				}
+				return false
+			}
+			if (isNil(bo.X) && fromP(bo.Y)) || (isNil(bo.Y) && fromP(bo.X)) {
+				return true
+			}
+		}
+	}
+	return false
+}
+
 func countInstrs(fn *ssa.Function) int {
 	n := 0
 	for _, b := range fn.Blocks {
@@ -675,6 +768,20 @@ func (e *Engine) verifyFunction(key string, extra *FuncSpec) (res *FuncResult) {
 		args = append(args, v)
 		fx.entryParams = append(fx.entryParams, namedVal{p.Name(), v})
 	}
+	// implicit preconditions (reported as assumptions): a pointer receiver
+	// that the method never compares with nil is non-nil; function-typed
+	// parameters are non-nil
+	for i, p := range fn.Params {
+		sh := shapeOf(p.Type())
+		if i == 0 && fn.Signature.Recv() != nil && sh.kind == KPtr && !comparesWithNil(fn, p) {
+			fx.assumes = append(fx.assumes, not(eq(args[i].ts[0], "0")))
+			fx.noteAssumption("methods are called on non-nil pointer receivers (unless the method itself handles a nil receiver)")
+		}
+		if sh.kind == KFunc || (sh.kind == KFunc && i == 0) {
+			fx.assumes = append(fx.assumes, not(eq(args[i].ts[0], "0")))
+			fx.noteAssumption("function-typed parameters are non-nil")
+		}
+	}
 	path := shortKey(key)
 	// preconditions
 	pre := st.clone()
@@ -685,6 +792,10 @@ func (e *Engine) verifyFunction(key string, extra *FuncSpec) (res *FuncResult) {
 	fr0.entry = pre
 	lets := map[string]CV{}
 	if spec != nil {
+		for _, u := range spec.Uses {
+			fx.assumes = append(fx.assumes, e.lemmaAsAxiom(fx, u, ""))
+			fx.usedLemmas = append(fx.usedLemmas, u)
+		}
 		for _, l := range spec.Lets {
 			le, err := parseExpr(l.Type)
 			if err != nil {
@@ -695,6 +806,15 @@ func (e *Engine) verifyFunction(key string, extra *FuncSpec) (res *FuncResult) {
 		for _, r := range spec.Requires {
 			t := fr0.evalExprIn(r.E, pre, pre, lets).asBool()
 			fx.assumes = append(fx.assumes, t)
+		}
+		for _, ap := range spec.Applies {
+			call := ap.E.(*ECall)
+			env := fr0.envFor(pre, pre, lets)
+			env.fr = nil
+			for n, v := range fr0.params {
+				env.vars[n] = cvOf(v)
+			}
+			fx.assumes = append(fx.assumes, e.lemmaInstance(fx, call.Fn, call.Args, env))
 		}
 	}
 	// vacuity probe: the preconditions and type invariants are satisfiable
@@ -730,6 +850,9 @@ func (e *Engine) verifyFunction(key string, extra *FuncSpec) (res *FuncResult) {
 		}
 		frp := *fr0
 		for i, c := range spec.Ensures {
+			if !e.useClause(c) {
+				continue
+			}
 			env := frp.envFor(out, pre, post)
 			env.fr = nil
 			for n, v := range fr0.params {
@@ -904,7 +1027,11 @@ func discharge(results []*FuncResult, opt dischargeOpts) {
 				if opt.keepDir != "" {
 					keep = filepath.Join(opt.keepDir, sanitize(j.o.Name)+".smt2")
 				}
-				j.o.Result = solve(q, opt.timeoutS, opt.solvers, keep)
+				t := opt.timeoutS
+				if j.o.Kind == "cover" && t > 3 {
+					t = 3 // reachability probes only need a quick "not unsat"
+				}
+				j.o.Result = solve(q, t, opt.solvers, keep)
 			}
 		}()
 	}
@@ -986,10 +1113,40 @@ func (e *Engine) verifyLemma(name string) (res *FuncResult) {
 		fx.assumes = append(fx.assumes, e.lemmaAsAxiom(fx, u, ""))
 	}
 	if lem.Induct != "" {
-		fx.assumes = append(fx.assumes, e.lemmaAsAxiom(fx, name, lem.Induct+"|"+env.vars[lem.Induct].asInt()))
+		// induction hypothesis: the lemma itself for the predecessor of the
+		// induction variable (same other parameters), when that is >= 0
+		ih := &Env{fx: fx, vars: map[string]CV{}, st: st, old: st, pkg: env.pkg, bound: map[string]bool{}}
+		for k, v := range env.vars {
+			ih.vars[k] = v
+		}
+		iv := env.vars[lem.Induct].asInt()
+		ih.vars[lem.Induct] = CV{k: cvInt, t: sub(iv, "1")}
+		var pre, posts []T
+		for _, r := range lem.Requires {
+			pre = append(pre, ih.eval(r.E).asBool())
+		}
+		for _, c := range lem.Ensures {
+			posts = append(posts, ih.eval(c.E).asBool())
+		}
+		fx.assumes = append(fx.assumes, imp(and(append([]T{le("1", iv)}, pre...)...), and(posts...)))
+		if lem.Strong {
+			fx.assumes = append(fx.assumes, e.lemmaAsAxiom(fx, name, lem.Induct+"|"+iv))
+		}
 	}
 	for _, r := range lem.Requires {
 		fx.assumes = append(fx.assumes, env.eval(r.E).asBool())
+	}
+	for _, ap := range lem.Applies {
+		call := ap.E.(*ECall)
+		if call.Fn == name {
+			unsupp("lemma %s applies itself (use 'induction on')", name)
+		}
+		if _, isSpec := e.contracts.SpecFns[call.Fn]; isSpec {
+			// mentioning a spec function instantiates its defining clauses
+			env.eval(call)
+			continue
+		}
+		fx.assumes = append(fx.assumes, e.lemmaInstance(fx, call.Fn, call.Args, env))
 	}
 	// calls by contract: each starts from the same symbolic pre-state, so the
 	// lemma relates independent runs of the function(s) (self-composition)
@@ -1074,4 +1231,34 @@ func (e *Engine) lemmaAsAxiom(fx *FnCtx, name string, induct string) T {
 		posts = append(posts, env.eval(c.E).asBool())
 	}
 	return fmt.Sprintf("(forall (%s) %s)", strings.Join(binders, " "), imp(and(pre...), and(posts...)))
+}
+
+// lemmaInstance is the ground instance "requires ==> ensures" of a (separately
+// proved) lemma for the given argument expressions.
+func (e *Engine) lemmaInstance(fx *FnCtx, name string, args []Expr, env *Env) T {
+	lem := e.contracts.Lemmas[name]
+	if lem == nil {
+		unsupp("unknown lemma %s", name)
+	}
+	if len(args) != len(lem.Params) {
+		unsupp("lemma %s expects %d arguments", name, len(lem.Params))
+	}
+	fx.usedLemmas = append(fx.usedLemmas, name)
+	inst := &Env{fx: fx, vars: map[string]CV{}, st: env.st, old: env.old, pkg: e.pkgOf(lem.Pkg), bound: map[string]bool{}}
+	for i, p := range lem.Params {
+		inst.vars[p.Name] = env.eval(args[i])
+	}
+	var pre, posts []T
+	for _, p := range lem.Params {
+		if p.Type == "nat" {
+			pre = append(pre, le("0", inst.vars[p.Name].asInt()))
+		}
+	}
+	for _, r := range lem.Requires {
+		pre = append(pre, inst.eval(r.E).asBool())
+	}
+	for _, c := range lem.Ensures {
+		posts = append(posts, inst.eval(c.E).asBool())
+	}
+	return imp(and(pre...), and(posts...))
 }
